@@ -170,6 +170,12 @@ template<typename Fn> void api(int opc, Fn &&fn)
 int last_fd_created() { return S.nextfd - 1; }
 
 void run_block(long long b);
+void run_simple_op(Op const &op);
+// the sched harness substitutes its own operation runner (schedule points, peer actions) and logs handler exits
+void (*g_op_runner)(Op const &) = nullptr;
+bool g_log_handler_exit = false;
+void (*g_on_future)(long long f, long long key, int fd, size_t size) = nullptr;
+struct HandlerExit { long long kind, key; ~HandlerExit() { if(g_log_handler_exit) vos::log(26, {kind, key}); } };
 
 // access to the container under a std::stack
 template<class St> typename St::container_type const &container_of(St const &st)
@@ -232,6 +238,7 @@ ReceiveHandler make_receive(long long key)
     vos::log(21, {1, k, n, static_cast<long long>(buf->size())});
     cur_arg = &buf;
     struct Reset { ~Reset() { cur_arg = nullptr; } } reset;
+    HandlerExit hx{1, k};
     run_block(s.h1);
   };
 }
@@ -241,6 +248,7 @@ DisconnectHandler make_disconnect(long long key)
     long long k = key;
     long long h2 = socks[k].h2;
     vos::log(21, {2, k, sym_of(addr)});
+    HandlerExit hx{2, k};
     run_block(h2);
   };
 }
@@ -255,6 +263,7 @@ ReceiveFromHandler make_receive_from(long long key)
     vos::log(21, {4, k, n, static_cast<long long>(buf->size()), sym_of(from)});
     cur_arg = &buf;
     struct Reset { ~Reset() { cur_arg = nullptr; } } reset;
+    HandlerExit hx{4, k};
     run_block(s.h1);
   };
 }
@@ -267,6 +276,7 @@ ConnectHandler make_connect(long long key)
     vos::log(21, {3, k, peer});
     cur_acc = Accepted{&sock, peer};
     struct Reset { ~Reset() { cur_acc.reset(); } } reset;
+    HandlerExit hx{3, k};
     run_block(h1);
   };
 }
@@ -498,7 +508,7 @@ void run_simple_op(Op const &op)
       static long long anonymous = 0;
       bool anon = a0 < 0;
       long long id = anon ? 1000 + anonymous++ : a0, blk = a3;
-      auto task = [id, blk]() { long long i = id, b = blk; vos::log(21, {5, i}); run_block(b); };
+      auto task = [id, blk]() { long long i = id, b = blk; vos::log(21, {5, i}); HandlerExit hx{5, i}; run_block(b); };
       std::unique_ptr<ToDo> t;
       if(a1 == 0) t = std::make_unique<ToDo>(*driver, task);
       else if(a1 == 1) t = std::make_unique<ToDo>(*driver, task, TimePoint(std::chrono::nanoseconds(a2 + EPOCH_NS)));
@@ -548,14 +558,18 @@ void run_simple_op(Op const &op)
     api(opc, [&]() -> V {
       auto b = pools.at(a1)->Get();
       (void)name_of(b.get());
+      if(!(opc == 61 ? !!s.tcpa : !!s.udpa)) return {-1};   // destroyed by another thread meanwhile (scenario race, not a library matter)
+      // reserve the future's slot first: with several producer threads the identity must be unique
       long long f = static_cast<long long>(futs.size());
+      futs.emplace_back();
       b->resize(static_cast<size_t>(a2));
       vos::fill((3ull << 20) + static_cast<uint64_t>(f), 0, b->data(), b->size());
       S.aq[s.fd].push_back(vos::State::AQ{f, static_cast<size_t>(a2), 0, a3});
-      Fut fu;
-      if(opc == 61) fu.f = s.tcpa->Send(std::move(b));
-      else fu.f = s.udpa->SendTo(std::move(b), sym_addr(a3));
-      futs.push_back(std::move(fu));
+      if(g_on_future) g_on_future(f, a0, s.fd, static_cast<size_t>(a2));
+      std::future<void> fut;
+      if(opc == 61) fut = s.tcpa->Send(std::move(b));
+      else fut = s.udpa->SendTo(std::move(b), sym_addr(a3));
+      futs[static_cast<size_t>(f)].f = std::move(fut);
       return {f, a0, a2, opc == 61 ? 0 : a3};
     });
     break;
@@ -598,7 +612,7 @@ void run_block(long long b)
   auto it = blocks.find(b);
   if(it == blocks.end()) return;
   auto ops = it->second; // copy: stable while running
-  for(auto const &op : ops) run_simple_op(op);
+  for(auto const &op : ops) (g_op_runner ? g_op_runner : run_simple_op)(op);
 }
 
 void report_state()
@@ -726,6 +740,7 @@ void run_isolated(Case const &c)
 
 } // namespace
 
+#ifndef SIM_NO_MAIN
 int main()
 {
   std::string line;
@@ -742,3 +757,4 @@ int main()
   }
   return 0;
 }
+#endif // SIM_NO_MAIN
